@@ -9,8 +9,8 @@ from . import common as C
 
 FAMILY = "bridge:c18"
 SHARDS = 12
-N_QUICK = 18000
-N_THOROUGH = 60000
+N_QUICK = 120000
+N_THOROUGH = 480000
 
 TRUSTED = [
     "mime.ParseMediaType, strings.EqualFold: the harness hands the model the media type and charset parameter that "
@@ -205,6 +205,7 @@ def judge(ctx, res, logs, crashes):
     samples = []
     reenc = 0
     nviol = 0
+    keep = set()
 
     def bump(k):
         dist[k] = dist.get(k, 0) + 1
@@ -255,6 +256,8 @@ def judge(ctx, res, logs, crashes):
                 continue
             mon = monitors(sc)
             ms = [by_line[i] for i, _ in sc["lines"] if i in by_line]
+            if mon or ms:
+                keep.add(lp)
             if (mon or ms) and nviol < 6:
                 nviol += 1
                 what = mon[1] if mon else "answer differs from the model's prediction: expected %s, observed %s" % (
@@ -265,6 +268,10 @@ def judge(ctx, res, logs, crashes):
                                    what=what, mismatches=ms[:5], log=[l for _, l in sc["lines"]],
                                    replay_cmd="./check C18 --replay <this file>"),
                               found_input=True)
+    # the logs are large (about 2.5 kB per scenario): keep only those a violation refers to
+    for lp in logs:
+        if lp not in keep and not crashes and os.path.exists(lp) and not ctx.get("replay"):
+            os.remove(lp)
     for c in crashes[:3]:
         o = c["output"]
         what = "worker process died"
